@@ -259,6 +259,29 @@ def replay(ctx, spec, doc):
     return rep
 
 
+LIMITS = [0, 1, 2, 3, 15, 16, 17, 255, 1016]
+
+
+def limited_cases(rng, n):
+    """the same kinds of input decoded through a reader that hands out at most k octets per bytes() call and answers None to a
+    longer request although the octets are there (harness LimitReader / Model/Show.v LimitReader): the decoders'
+    ok_or(AVPReadError / MessageReadError) arms are reachable in no other way"""
+    out = []
+    for _ in range(n):
+        k = rng.choice(LIMITS)
+        c = rng.random()
+        if c < 0.45:
+            out.append(('DECL\t%d\t%d\t%s' % (k, rng.randrange(8), corpus.rand_valid_ctrl_bytes(rng, rng.randrange(1, 6)).hex()), 'limited_ctrl'))
+        elif c < 0.65:
+            out.append(('DECL\t%d\t%d\t%s' % (k, rng.randrange(8), corpus.rand_valid_data_bytes(rng).hex()), 'limited_data'))
+        elif c < 0.85:
+            out.append(('AVPSL\t%d\t%s' % (k, b''.join(rand_body(rng, rng.randrange(1, 7), good_only=rng.random() < 0.5)).hex()), 'limited_avps'))
+        else:
+            b = corpus.rand_valid_ctrl_bytes(rng) if rng.random() < 0.7 else corpus.rand_valid_data_bytes(rng)
+            out.append(('DECL\t%d\t%d\t%s' % (k, rng.randrange(8), perturb(rng, b).hex()), 'limited_perturbed'))
+    return out
+
+
 # =============================================================================== C01
 def c01_cases(ctx, budget):
     rng = ctx.rng
@@ -278,6 +301,8 @@ def c01_cases(ctx, budget):
         ty = int.from_bytes(b[4:6], 'big')
         cases.append('TYPE\t%d\t%s' % (ty, b[6:].hex()))
         tags.append('type_grid')
+    for c, t in limited_cases(rng, max(300, budget // 10)):
+        cases.append(c); tags.append(t)
     return cases, tags
 
 
@@ -552,6 +577,14 @@ def run_c02(ctx):
                          checked=r[:300], slice=plain[w][i][:300])
             if cls(plain[w][i]) in ('ABORT', 'PANIC', 'HANG'):
                 rep.fail('SliceReader decode did not return: %s' % cls(plain[w][i]), case=b[i], executor=w, result=plain[w][i][:200])
+    # a reader that refuses long bytes() requests is within the trait's contract too: the decoder must answer with an error,
+    # not with an out-of-contract call or a panic
+    lim = limited_cases(rng, ctx.scale(2000, 20000))
+    rl = run_compare(ctx, rep, [c for c, _ in lim], [t for _, t in lim], lambda c, r: r if returns(r) else cls(r))
+    for w in IMPLS:
+        for (c, _), r in zip(lim, rl[w]):
+            if not returns(r):
+                rep.fail('decode through a reader that limits bytes() did not return: %s' % cls(r), case=c, executor=w, result=r[:200])
     # reveal builds its own SliceReader: abort/panic capture in the debug profile
     rv, rvtags, _, _ = reveal_cases(ctx, ctx.scale(4000, 40000))
     r2 = run_compare(ctx, rep, rv, ['reveal_' + t for t in rvtags], lambda c, r: 'RETURNS' if returns(r) else cls(r))
@@ -678,9 +711,9 @@ def run_c04(ctx):
 # =============================================================================== C05
 def c05_obs(c, r):
     ch = c.split('\t', 1)[0]
-    if ch in ('DEC', 'DEC0'):
+    if ch in ('DEC', 'DEC0', 'DECL'):
         return r if cls(r) == 'Ok' else cls(r)
-    if ch == 'AVPS':
+    if ch in ('AVPS', 'AVPSL'):
         if cls(r) != 'List':
             return cls(r)
         body = strip_rem(r)[1:-1]
@@ -716,6 +749,8 @@ def run_c05(ctx):
         cases.append('AVPS\t%s' % b.hex()); tags.append('avps_' + t)
     for (t, b) in corpus.guard_grid(rng, ctx.thorough):
         cases.append('TYPE\t%d\t%s' % (int.from_bytes(b[4:6], 'big'), b[6:].hex())); tags.append('type_grid')
+    for c, t in limited_cases(rng, ctx.scale(1500, 15000)):
+        cases.append(c); tags.append(t)
     # UTF-8 boundary sets inside string-typed AVPs
     for s in utf8_boundary(rng, ctx.thorough):
         cases.append('AVPS\t%s' % avp_rec(rng.choice([8, 21, 22, 23]), s).hex()); tags.append('utf8')
@@ -1665,6 +1700,8 @@ def run_c15(ctx):
         for mask in range(64):   # every subset pattern of 6 records after a MessageType
             recs = [mt_record(rng)] + [bad_record(rng)[0] if mask >> i & 1 else good_record(rng, nonmt=True) for i in range(6)]
             msgs.append((recs, [False] + [bool(mask >> i & 1) for i in range(6)], b''))
+    lim = limited_cases(rng, ctx.scale(800, 8000))
+    run_compare(ctx, rep, [c for c, _ in lim], [t for _, t in lim], o_errs_full)
     flat = ['AVPS\t' + r.hex() for (recs, _, _) in msgs for r in recs]
     full = ['DEC\t%d\t%s' % (rng.randrange(8) & 5 | 2, ctrl_bytes(b''.join(recs) + tail).hex()) for (recs, _, tail) in msgs]
     rf = run_compare(ctx, rep, flat, ['record'] * len(flat), o_avps_tags)
@@ -2052,6 +2089,7 @@ def pure_workload(ctx, n):
         cases.append('AVPS\t' + b''.join(rand_body(rng, rng.randrange(1, 6), good_only=False)).hex())
         cases.append('ENC\t%s\t' % rand_ctrl(rng, small=True))
         cases.append('ENCA\t%s\t' % rand_avp(rng, maxpay=60))
+    cases += [c for c, _ in limited_cases(rng, n // 5)]
     for _ in range(n // 10):
         a = hide_args(rng)
         cases.append('HIDE\t%s\t%s\t%s\t%s\t%s' % (rand_avp(rng, allow_hidden=False, maxpay=60), a[0].hex(), a[1].hex(), a[2].hex(), a[3].hex()))
@@ -2267,6 +2305,22 @@ def run_c20(ctx):
                 recs2 = recs[:pos] + [r] + recs[pos:]
             b = ctrl_bytes(b''.join(recs2))
         inj.append('DEC\t%d\t%s' % (opt, b.hex())); want.append('Err [%s]' % e)
+    # a reader that refuses the bytes() request of one AVP (or of the data payload): the error names that AVP
+    for _ in range(ctx.scale(600, 6000)):
+        t = rng.choice([x for x in TYPE_KIND if KINDS[TYPE_KIND[x]][1] in ('bytes', 'str')] + [1, 12])
+        k = rng.choice([0, 1, 2, 3, 15, 16])
+        n = k + 1 + rng.randrange(0, 20)
+        pay = {1: be(extreme(rng, 16), 2) + be(rng.randrange(9), 2) + rutf8_plain(rng, n),
+               12: rbytes(rng, 3) + rutf8_plain(rng, n)}.get(t)
+        if pay is None:
+            pay = rutf8_plain(rng, n) if KINDS[TYPE_KIND[t]][1] == 'str' else rbytes(rng, n)
+        recs = [mt_record(rng)] + [good_record(rng, rng.choice([9, 10, 14, 39, 2])) for _ in range(rng.randrange(0, 3))]
+        pos = rng.randrange(1, len(recs) + 1)
+        b = ctrl_bytes(b''.join(recs[:pos] + [avp_rec(t, pay, m=rng.choice([0, 1]))] + recs[pos:]))
+        inj.append('DECL\t%d\t2\t%s' % (k, b.hex())); want.append('Err [AVPReadError(%d)]' % t)
+        if rng.random() < 0.2:
+            d = data_bytes(rbytes(rng, n), rng.random() < 0.5, rng.random() < 0.5)
+            inj.append('DECL\t%d\t%d\t%s' % (k, rng.randrange(8), d.hex())); want.append('Err [MessageReadError]')
     # every text site x length class x class of UTF-8 defect x position, inside an otherwise valid message
     for (tag, t, pay, ok) in utf8_grid(rng):
         if ok:
